@@ -102,18 +102,23 @@ Definition fwd_ok (sigs : list msig) (self : bool) (k : nat) (K : list nat)
 Definition supplied_positions (sigs : list msig) (k : nat) (K : list nat) : nat :=
   k + length (filter (is_pos_name sigs) K).
 
-(* classifier of KF-02: some positional parameter is omitted (necessarily an optional one when the call binds)
-   and a keyword argument is supplied that is keyword-only, or names a positional parameter beyond the first
-   omitted one (then S is undefined: the keyword-supplied positionals do not continue the supplied prefix).
-   Keywords that name the required/optional positionals right after the k supplied ones are fine: the early exit
-   forwards them by position. *)
+(* class of KF-02 (repaired in /repo: the early exits now keep the keyword parts; kept to name the shapes that used
+   to fail): some positional parameter is omitted and a keyword argument is supplied that is keyword-only, or names a
+   positional parameter beyond the first omitted one. *)
 Definition kf02_class (sigs : list msig) (k : nat) (K : list nat) : bool :=
   (supplied_positions sigs k K <? npos sigs)
   && (negb (is_nil (filter (fun n => negb (is_pos_name sigs n)) K))
       || match spec_forward sigs false k K with None => true | Some _ => false end).
 
-(* D of C03_forward_partial = complement of KF-02's class *)
-Definition dom_fwd (sigs : list msig) (k : nat) (K : list nat) : bool := negb (kf02_class sigs k K).
+(* classifier of KF-31, what is left of it: some positional parameter is omitted and a keyword names a positional
+   parameter beyond the first omitted one (S is undefined: the keyword-supplied positionals do not continue the supplied
+   prefix) -- the early exit forwards only the prefix, the later positional is dropped. *)
+Definition kf31_class (sigs : list msig) (k : nat) (K : list nat) : bool :=
+  (supplied_positions sigs k K <? npos sigs)
+  && match spec_forward sigs false k K with None => true | Some _ => false end.
+
+(* D of C03_forward_partial = complement of KF-31's class *)
+Definition dom_fwd (sigs : list msig) (k : nat) (K : list nat) : bool := negb (kf31_class sigs k K).
 
 (* classifier of KF-03: nothing is supplied and no method has an empty parameter list *)
 Definition kf03_class (sigs : list msig) (k : nat) (K : list nat) : bool :=
